@@ -539,6 +539,22 @@ func (p *pool) forceOK(format string) bool { return !forcedSlow[format] }
 
 var thePool *pool
 
+// poolKey: the bucket of a sample.  Samples whose golden test runs without -d
+// (format "probe": about half of the corpus, e.g. every avi, wav, webp file)
+// are bucketed by the directory of the decoder they belong to; they used to
+// share ONE bucket of which only the 24 smallest files were kept, so whole
+// formats were missing from the pool (seed C06-5: an avi LIST type byte).
+func poolKey(e fqx.Entry) string {
+	if e.Format != "probe" {
+		return e.Format
+	}
+	dir := filepath.Dir(e.Path)
+	for strings.HasSuffix(dir, "/testdata") || strings.Contains(filepath.Base(dir), "testdata") {
+		dir = filepath.Dir(dir)
+	}
+	return "probe:" + filepath.Base(dir)
+}
+
 func getPool() *pool {
 	if thePool != nil {
 		return thePool
@@ -548,7 +564,7 @@ func getPool() *pool {
 		if len(e.Data) > 64*1024 {
 			continue
 		}
-		p.byFmt[e.Format] = append(p.byFmt[e.Format], e)
+		p.byFmt[poolKey(e)] = append(p.byFmt[poolKey(e)], e)
 	}
 	for k, v := range generated() {
 		f := strings.SplitN(k, "/", 3)[1]
@@ -558,8 +574,13 @@ func getPool() *pool {
 		sort.Slice(es, func(i, j int) bool { return es[i].Path < es[j].Path })
 		// at most 40 files per format, smallest first (keeps wasm/tzif from dominating)
 		sort.SliceStable(es, func(i, j int) bool { return len(es[i].Data) < len(es[j].Data) })
-		if len(es) > 24 {
-			es = es[:24]
+		if n := 24; len(es) > n {
+			if strings.HasPrefix(f, "probe:") {
+				n = 12
+			}
+			if len(es) > n {
+				es = es[:n]
+			}
 		}
 		p.byFmt[f] = es
 		p.formats = append(p.formats, f)
